@@ -104,4 +104,21 @@ CHECKS = {
              "non-trivial = estimate changed at least once with a listener registered; distinct = distinct (config, wrapper, op count, listener count, last op).",
         assumptions=COMMON_ASSUME,
     ),
+    "C03": dict(
+        pkg="c03", race=False, shards=(4, 16), timeout_s=(300, 2400),
+        technique="lock-step reference-model monitor over seeded op sequences + porcupine linearizability check of recorded concurrent histories + quiescence invariant",
+        level_text="Sequential: after every acquire/release/SetLimit/add/remove step on both partitioned strategies the grant decision (the iff of the "
+                   "statement), total busy/limit, every bin count and every bin share are compared with an integer-arithmetic reference model "
+                   "(dyadic and decimal fractions, zero fractions, unknown/unmatched/empty keys, overlapping predicates, limits set to <=0). "
+                   "Concurrent: 2-6 goroutines on one strategy, client-boundary histories on a logical clock checked with porcupine against the "
+                   "same model, bins must be zero at quiescence. Exploration over the sequences and interleavings produced.",
+        require=["acquires", "releases", "setlimits", "partition_adds", "partition_removes", "grants_on_guaranteed_share_while_total_full",
+                 "grants_borrowing_beyond_share", "requests_for_unknown_or_unmatched_keys", "concurrent_histories", "histories_linearizable",
+                 "overlapping_operation_pairs", "sequential_cases/lookup", "sequential_cases/predicate"],
+        rule="sequential case = (strategy kind, 1-5 partitions with fractions k/32 or k/100 summing <=1, total limit 1-50, 20-120 ops); concurrent case = "
+             "(config, 2-6 goroutines x 3-8 pre-drawn ops, small limit); limits whose share would depend on binary rounding of limit*fraction are "
+             "avoided, not judged. non-trivial = both grants and refusals occurred (sequential) / at least one overlapping operation pair (concurrent); "
+             "distinct = distinct (config, op count, last ops) hashes.",
+        assumptions=COMMON_ASSUME + ["porcupine v1.3.0; checker timeout (10 s) is inconclusive", "fractions sum <= 1 also after dynamic adds"],
+    ),
 }
